@@ -1,3 +1,4 @@
+import PedVerif.Props.CheckerIR
 import PedVerif.Lemmas.CheckerEnvs
 import PedVerif.Props.C03
 import PedVerif.Props.C10
@@ -9,10 +10,16 @@ import PedVerif.Props.Callable
 type-safe frozen dataclass consults), `conforms` the independent specification.  The theorem quantifies over every
 annotation of the vocabulary (any nesting depth, either spelling), every class table and every value.
 
-Full statement `Sound_full`; proved as `sound_partial` under two guards whose complements are the recorded regions
-`namedtupleStructural` (a value with
-`_asdict` is compared structurally, without isinstance); one-shot iterators are excluded as values (their elements are
-deliberately not inspected — C04).  Each region has a negation witness below.
+Full statement `Sound_full`; proved as `sound_partial` under guards that speak about the annotation and the value at hand only:
+* `v.plain` = no NamedTuple instance anywhere in the value (`v.hasNT = false`; complement: region `namedtupleStructural`, a value
+  with `_asdict` is compared structurally, without isinstance - witness `sound_fails_namedtupleStructural`) **and** no one-shot
+  iterator anywhere in it (`v.hasIter = false`; complement: region `iteratorItemsUnchecked`, the pending items of an iterator are
+  deliberately not looked at because that would consume it (C04) - witness `sound_fails_iteratorSkip`); `plain_eq` splits the guard,
+  `sound_partial_split` states the theorem with the two exclusions as separate hypotheses;
+* `a.strAnnOk env v` - only for a top-level *string* annotation whose name the context does not bind (outside the vocabulary
+  "forward references naming a class"): no class in the MRO of this value has that name.  `true` by definition for every other
+  annotation, whatever the class table (`strAnnOk_of_not_str`); complement: witness `strAnn_unbound_name_accepted`.
+The driver evaluates all hypotheses on every generated case (`underC01`), the check reports how many cases fall under the theorem.
 -/
 namespace PedVerif.Checker
 
@@ -22,27 +29,40 @@ def Sound_full : Prop :=
     checkType env orc a v = .accept → conforms env a v = true
 
 /-- **C01.** Whatever the checker accepts conforms. -/
-theorem sound_partial (env : Env) (orc : Nat → Val → Raw) (hw : WfEnv env) (hs : StrAnnGuard env)
-    (a : Ann) (v : Val) (hns : a.noSpecial = true) (hwf : v.wf env = true) (hp : v.plain = true) :
+theorem sound_partial (env : Env) (orc : Nat → Val → Raw) (hw : WfEnv env)
+    (a : Ann) (v : Val) (hs : a.strAnnOk env v = true) (hns : a.noSpecial = true) (hwf : v.wf env = true) (hp : v.plain = true) :
     checkType env orc a v = .accept → conforms env a v = true :=
-  sound_checkType env orc hw hs a v hns hwf hp
+  sound_checkType env orc hw a v hs hns hwf hp
+
+/-- the same with the two exclusions of `plain` named: no NamedTuple instance, no one-shot iterator (each needed: see the witnesses) -/
+theorem sound_partial_split (env : Env) (orc : Nat → Val → Raw) (hw : WfEnv env)
+    (a : Ann) (v : Val) (hs : a.strAnnOk env v = true) (hns : a.noSpecial = true) (hwf : v.wf env = true)
+    (hnt : v.hasNT = false) (hit : v.hasIter = false) :
+    checkType env orc a v = .accept → conforms env a v = true :=
+  sound_partial env orc hw a v hs hns hwf (plain_of hnt hit)
+
+/-- for every annotation that is not a top-level string the guard is free: the theorem holds on every class table -/
+theorem sound_partial_no_str (env : Env) (orc : Nat → Val → Raw) (hw : WfEnv env)
+    (a : Ann) (v : Val) (hstr : ∀ n, a ≠ .strAnn n) (hns : a.noSpecial = true) (hwf : v.wf env = true) (hp : v.plain = true) :
+    checkType env orc a v = .accept → conforms env a v = true :=
+  sound_partial env orc hw a v (strAnnOk_of_not_str hstr v) hns hwf hp
 
 /-- contrapositive, as the property phrases it: a value that does not conform - in particular a conforming value
     corrupted at one arbitrarily deep position in a way that breaks conformance - is not accepted -/
-theorem corruption_rejected (env : Env) (orc : Nat → Val → Raw) (hw : WfEnv env) (hs : StrAnnGuard env)
-    (a : Ann) (v' : Val) (hns : a.noSpecial = true) (hwf : v'.wf env = true) (hp : v'.plain = true)
+theorem corruption_rejected (env : Env) (orc : Nat → Val → Raw) (hw : WfEnv env)
+    (a : Ann) (v' : Val) (hs : a.strAnnOk env v' = true) (hns : a.noSpecial = true) (hwf : v'.wf env = true) (hp : v'.plain = true)
     (hbad : conforms env a v' = false) : checkType env orc a v' ≠ .accept := by
   intro h
-  have := sound_partial env orc hw hs a v' hns hwf hp h
+  have := sound_partial env orc hw a v' hs hns hwf hp h
   simp [hbad] at this
 
 /-- the element loop really is universal: one bad element of a list of any length is enough -/
-theorem one_bad_element_rejected (env : Env) (orc : Nat → Val → Raw) (hw : WfEnv env) (hs : StrAnnGuard env)
+theorem one_bad_element_rejected (env : Env) (orc : Nat → Val → Raw) (hw : WfEnv env)
     (sp : Spell) (o : SeqOrigin) (a : Ann) (c : ClsId) (pre post : List Val) (bad : Val)
     (hns : a.noSpecial = true) (hwf : (Val.coll c (pre ++ bad :: post)).wf env = true)
     (hp : (Val.coll c (pre ++ bad :: post)).plain = true) (hbad : conforms env a bad = false) :
     checkType env orc (.seq sp o a) (.coll c (pre ++ bad :: post)) ≠ .accept := by
-  apply corruption_rejected env orc hw hs _ _ (by simpa [Ann.noSpecial] using hns) hwf hp
+  apply corruption_rejected env orc hw _ _ rfl (by simpa [Ann.noSpecial] using hns) hwf hp
   simp [conforms, Val.iter, hbad]
 
 /-- (was region `strAnnNameCollision`, repaired by 9abf519) a string annotation that names a class of the context is
@@ -62,6 +82,27 @@ theorem sound_fails_namedtupleStructural :
     conforms envW (.clsF 9 [20, 21] [.cls 2, .cls 3]) (.ntup 10 [20, 21] [.lit (.int 1), .lit (.str [97])]) = false ∧
     (Val.ntup 10 [20, 21] [.lit (.int 1), .lit (.str [97])]).wf envW = true := by decide
 
+/-- region `iteratorItemsUnchecked`: `Iterable[int]` accepts a one-shot iterator whose pending items are strings
+    (`assert_value_matches_type(iter(['a', 'b']), Iterable[int], …)` returns; `@pedantic def g(xs: Iterable[int])` runs its body on
+    `g(xs=iter(['a', 'b']))`).  Not repaired: looking at the items would consume the iterator before the function sees it (C04). -/
+theorem sound_fails_iteratorSkip :
+    checkType envI (fun _ _ => .raisedOther) (.seq .typing .iterable (.cls 2)) (.iterator 6 [.lit (.str [97]), .lit (.str [98])]) = .accept ∧
+    conforms envI (.seq .typing .iterable (.cls 2)) (.iterator 6 [.lit (.str [97]), .lit (.str [98])]) = false ∧
+    (Val.iterator 6 [.lit (.str [97]), .lit (.str [98])]).wf envI = true ∧
+    (Val.iterator 6 [.lit (.str [97]), .lit (.str [98])]).hasNT = false ∧ (Val.iterator 6 [.lit (.str [97]), .lit (.str [98])]).hasIter = true := by decide
+
+theorem envR_not_global : ¬ StrAnnGuard envR := by
+  intro h
+  have := h 2 0 (by decide)
+  simp [envR] at this
+
+/-- complement of the local guard (witness): the string annotation `'str'` - a name the context does not bind - accepts a `str`
+    value by the name comparison over the MRO, while the spec (a string annotation means the class it names *in the context*) says no -/
+theorem strAnn_unbound_name_accepted :
+    checkType envR (fun _ _ => .raisedOther) (.strAnn 3) (.lit (.str [97])) = .accept ∧
+    conforms envR (.strAnn 3) (.lit (.str [97])) = false ∧ (Ann.strAnn 3).strAnnOk envR (.lit (.str [97])) = false ∧
+    (Val.lit (.str [97])).wf envR = true ∧ (Val.lit (.str [97])).plain = true := by decide
+
 theorem Sound_full_is_false : ¬ Sound_full := by
   intro h
   have w := sound_fails_namedtupleStructural
@@ -78,18 +119,17 @@ example : (Val.coll 4 [.lit (.int 1), .lit .none]).wf envW = true ∧ (Val.coll 
 end PedVerif.Checker
 
 namespace PedVerif.Checker
-/-- the guard of `sound_partial` is satisfiable: a class table with unique names whose context binds every name -/
-def envU : Env := { envW with
-  sub := fun a b => a == b || b == 0 || (a ≥ 1 && b == 1)
-  name := fun c => if c == 0 then 0 else 1
-  baseName := fun c => if c == 0 then none else some 0
-  ctx := fun n => if n == 0 then some 0 else if n == 1 then some 1 else none
-  mroNames := fun c => if c == 0 then [0] else [1, 0] }
-example : StrAnnGuard envU := by
-  intro t n h
-  have h0 : n ≠ 0 := by intro h'; subst h'; simp [envU] at h
-  have h1 : n ≠ 1 := by intro h'; subst h'; simp [envU] at h
-  by_cases ht : t = 0 <;> simp [envU, ht, h0, h1, Ne.symm h0, Ne.symm h1]
+/-! non-vacuity on the realistic table `envR` (names the context does not bind occur in every MRO): all hypotheses of `sound_partial`
+    hold for a generic annotation, for a string annotation the context binds, and for an unbound string against a value whose MRO
+    does not carry the name; the conclusion is not trivial (accepted and rejected instances) -/
+example : (Ann.seq .typing .list (.union .optional [.cls 2, .cls 0])).strAnnOk envR (.coll 4 [.lit (.int 1), .lit .none]) = true ∧
+    (Ann.seq .typing .list (.union .optional [.cls 2, .cls 0])).noSpecial = true ∧
+    (Val.coll 4 [.lit (.int 1), .lit .none]).wf envR = true ∧ (Val.coll 4 [.lit (.int 1), .lit .none]).plain = true ∧
+    checkType envR (fun _ _ => .raisedOther) (.seq .typing .list (.union .optional [.cls 2, .cls 0])) (.coll 4 [.lit (.int 1), .lit .none]) = .accept := by decide
+example : (Ann.strAnn 7).strAnnOk envR (.inst 7) = true ∧ checkType envR (fun _ _ => .raisedOther) (.strAnn 7) (.inst 7) = .accept ∧
+    checkType envR (fun _ _ => .raisedOther) (.strAnn 7) (.inst 8) = .reject := by decide
+example : (Ann.strAnn 99).strAnnOk envR (.inst 7) = true ∧ envR.ctx 99 = none ∧
+    checkType envR (fun _ _ => .raisedOther) (.strAnn 99) (.inst 7) = .reject := by decide
 end PedVerif.Checker
 
 
@@ -113,10 +153,10 @@ theorem pedantic_accepts_only_conforming (env : Env) (orc : Nat → Val → Raw)
 
 /-- … and a value it hands back to the caller conforms to the return annotation -/
 theorem pedantic_returns_only_conforming (env : Env) (orc : Nat → Val → Raw) (f : Fn) (args : List Val) (kw : List (NameId × Val))
-    (r : Val) (hw : WfEnv env) (hs : StrAnnGuard env) (hmode : f.mode = .pedantic) (hfl : f.flavour ≠ .generator)
-    (a : Ann) (ha : f.retAnn = some a) (hns : a.noSpecial = true) (hr : r.wf env = true ∧ r.plain = true)
+    (r : Val) (hw : WfEnv env) (hmode : f.mode = .pedantic) (hfl : f.flavour ≠ .generator)
+    (a : Ann) (ha : f.retAnn = some a) (hs : a.strAnnOk env r = true) (hns : a.noSpecial = true) (hr : r.wf env = true ∧ r.plain = true)
     (hret : (runCall env orc f args kw (.ret r)).caller = .ret) : conforms env a r = true :=
-  result_guard env orc f args kw r hw hs hmode hfl a ha hns hr hret
+  result_guard env orc f args kw r hw hmode hfl a ha hs hns hr hret
 
 end PedVerif.Call
 
@@ -124,8 +164,8 @@ namespace PedVerif.TypeSafe
 open PedVerif.Checker
 
 /-- a type-safe frozen dataclass whose validation passed holds only conforming field values -/
-theorem dataclass_accepts_only_conforming (env : Env) (orc : Nat → Val → Raw) (hw : WfEnv env) (hs : StrAnnGuard env)
+theorem dataclass_accepts_only_conforming (env : Env) (orc : Nat → Val → Raw) (hw : WfEnv env)
     (fvs : List (Field × Val)) (hok : FieldsSound env fvs) (h : validateTypes env orc fvs = none) : allConform env fvs = true :=
-  instance_fields_conform env orc hw hs fvs hok h
+  instance_fields_conform env orc hw fvs hok h
 
 end PedVerif.TypeSafe
